@@ -7,7 +7,7 @@ import numpy
 from hypothesis import strategies as st
 
 from .. import arr as A
-from ..core import Failure, drive, drive_enum
+from ..core import sstr, Failure, drive, drive_enum
 from ..ref import commands as R
 
 ID = "C06"
@@ -98,7 +98,7 @@ def check_op(case, rec):
         return []
     status, result = A.run_command(op, arrays, params)
     if status == "err":
-        return [Failure(sig + "|raises:" + A.exc_name(result), str(result)[:300])]
+        return [Failure(sig + "|raises:" + A.exc_name(result), sstr(result)[:300])]
     stats = {}
     fails = A.compare(result, ref, arrays[0].shape, sig, stats=stats)
     nt = nontrivial_cells(cells) if n > 1 else sum(1 for c in cells[0] if c is not None and c.v != 0)
@@ -199,7 +199,7 @@ def check_laws(case, rec):
                         same(_run("FuzzySelectedUnion", parr, {"TruestOrFalsest": which, "NumberToConsider": k}), b, 1e-12),
                         "perm %r %s k=%d" % (perm, which, k))
     except _LawError as le:
-        fails.append(Failure("law_raises:%s:%s|%s" % (le.op, A.exc_name(le.exc), cls), str(le.exc)[:300]))
+        fails.append(Failure("law_raises:%s:%s|%s" % (le.op, A.exc_name(le.exc), cls), sstr(le.exc)[:300]))
     cells = [A.cells_of(a) for a in arrays]
     if n >= 2 and nontrivial_cells(cells):
         rec.nontrivial_case(["laws", case])
